@@ -649,7 +649,7 @@ func runC09(c *Ctx) {
 		}
 		return
 	}
-	files, _ := filepathGlob("/verif/harness/corpus/C09/*.json")
+	files, _ := filepathGlob(verifRoot + "/harness/corpus/C09/*.json")
 	for _, f := range files {
 		var wrap struct{ Case c09Case `json:"case"` }
 		b, err := osReadFile(f)
